@@ -172,6 +172,17 @@ def run(chk: Check, model):
     for n in ast.walk(f_w.node):
         if isinstance(n, ast.Call) and isinstance(n.func, ast.Attribute) and n.func.attr == "normalize":
             flags.append({k.arg: ast.unparse(k.value) for k in n.keywords})
+    if len(flags) == 1:
+        # the wrapper spelling the arithmetic out instead of calling normalize: its flags are those whose expansion it returns
+        from .c19 import normalize_expansion
+        rw = SymEval(model).run_function(f_w)
+        news = [e for e in rw.events if e.kind == "call" and e.name == "new:NormalizeVec"]
+        its = [e for e in rw.events if e.kind == "call" and e.name == "self._env.step"]
+        if news and its and rw.ret[0] == "tuple" and len(rw.ret[1]) > 1:
+            for c_ in (True, False):
+                for m_ in (True, False):
+                    if rw.ret[1][1] == normalize_expansion(model, news[-1].term, T.mk_index(its[0].term, T.ONE), c_, m_):
+                        flags.append({"clip": str(c_), "subtract_mean": str(m_)})
     chk.add("C20.pipeline", "same normalisation flags at training / evaluation time", len(flags) >= 2 and all(f == {"clip": "True", "subtract_mean": "True"} for f in flags),
             f"training-time normalize flags: {flags}", chk.loc(f_t))
     # ---------------------------------------------------------------- extraction
